@@ -25,6 +25,8 @@ type Cfg struct {
 	Deck      []string `json:"deck"`
 	Personas  []int    `json:"personas,omitempty"`
 	Hostile   bool     `json:"hostile"`
+	PlainCtor bool     `json:"plain_constructor,omitempty"`  // the game is made with pokerface.NewGame (no game id) instead of the PokerFace factory
+	ViaHandle bool     `json:"via_handle,omitempty"`         // the players' actions go through the seat's Player handle (g.Player(i).Bet(x)) instead of the Game operation
 	Noise     bool     `json:"noise,omitempty"`              // in-place reloads and unexpected operations are mixed into the history
 	Burn      int      `json:"burn_count"`                   // Meta.BurnCount as configured (the engine always burns one card)
 	PosFlip   bool     `json:"positions_reversed,omitempty"` // list a seat's positions in reverse order
@@ -275,7 +277,7 @@ func genCfg(r *rand.Rand, g GenOpts) *Cfg {
 		c.Reuse = 1 + r.Intn(2)
 		c.Prev = genCfg(r, gg)
 		c.Prev.Noise = false
-		c.PrevSteps = r.Intn(16)
+		c.PrevSteps = r.Intn(48)
 	}
 	c.Burn = 1
 	if r.Intn(6) == 0 {
@@ -289,6 +291,8 @@ func genCfg(r *rand.Rand, g GenOpts) *Cfg {
 	c.Deck = shuffledDeck(r, c.Short)
 	c.Hostile = g.Hostile
 	c.Noise = r.Intn(6) == 0
+	c.ViaHandle = r.Intn(5) == 0
+	c.PlainCtor = r.Intn(3) == 0
 	// personas per seat
 	mix := r.Intn(8)
 	for i := 0; i < c.N; i++ {
